@@ -118,11 +118,12 @@ pub fn run(c: &Case) -> Outcome {
         let decoy = common::cert(KeyKind::Ed25519V4, 77);
         let mut cfg2 = cfg.clone();
         cfg2.signers = vec![];
-        if let Ok(m) = (if cfg.armor {
+        let parsed = if cfg.armor {
             pgp::composed::Message::from_armor(&bytes[..]).map(|x| x.0)
         } else {
             pgp::composed::Message::from_bytes(&bytes[..])
-        }) {
+        };
+        if let Ok(m) = parsed {
             if let Ok(mut m) = msg::open(cfg, m, seed, false) {
                 if msg::pull(&mut m, Pull::ToEnd).is_ok() {
                     for i in 0..cfg.signers.len() {
